@@ -91,6 +91,9 @@ type scenario struct {
 	EarlyN   int          `json:"early_n"`   // this many readers start before the first gate is opened
 	Cancel   string       `json:"cancel"`    // none | before-start | in-attempt | between | after
 	CancelAt int          `json:"cancel_at"` // attempt number for in-attempt / between
+	// CancelAgain: wherever the harness cancels, it calls Cancel a second time right away (1), or from another goroutine at
+	// the same time (2): cancelling what is already cancelled changes nothing
+	CancelAgain int `json:"cancel_again,omitempty"`
 }
 
 type obs struct {
@@ -186,8 +189,23 @@ func run(sc scenario) (out runOut) {
 	default:
 		er = ex.GetWithExecutionAsync(func(failsafe.Execution[int]) (int, error) { return body() })
 	}
+	cancelER := func() {
+		switch sc.CancelAgain {
+		case 1:
+			er.Cancel()
+			er.Cancel()
+		case 2:
+			var cw sync.WaitGroup
+			cw.Add(1)
+			go func() { defer cw.Done(); er.Cancel() }()
+			er.Cancel()
+			cw.Wait()
+		default:
+			er.Cancel()
+		}
+	}
 	if sc.Cancel == "before-start" {
-		er.Cancel()
+		cancelER()
 		add(obs{who: "harness", what: "cancelled"})
 	}
 
@@ -276,14 +294,15 @@ func run(sc scenario) (out runOut) {
 	for k := 1; ; k++ {
 		n, ok := waitEntered()
 		if n == -1 {
-			out.inconclusive = "no attempt entered and the execution did not complete within 30s"
-			return out
+			// every attempt that entered was let go at once and this process has been running for 30 s since (the patience
+			// clock does not count stalls): nothing but the library can be holding the execution
+			return fail("never-done", "no further attempt entered and the execution result's Done channel was not closed within 30s (cancel=%s, cancel_again=%d)", sc.Cancel, sc.CancelAgain)
 		}
 		if !ok {
 			break
 		}
 		if sc.Cancel == "in-attempt" && n == sc.CancelAt {
-			er.Cancel()
+			cancelER()
 			add(obs{who: "harness", what: "cancelled"})
 			cancelledBeforeCompletion = true
 			out.cancelMid = true
@@ -301,7 +320,7 @@ func run(sc scenario) (out runOut) {
 			select {
 			case <-er.Done():
 			default:
-				er.Cancel()
+				cancelER()
 				add(obs{who: "harness", what: "cancelled"})
 				cancelledBeforeCompletion = true
 				out.cancelMid = true
@@ -313,7 +332,7 @@ func run(sc scenario) (out runOut) {
 			select {
 			case <-er.Done():
 			default:
-				er.Cancel()
+				cancelER()
 				add(obs{who: "harness", what: "cancelled"})
 				cancelledBeforeCompletion = true
 			}
@@ -501,6 +520,9 @@ func genScenario(t *rapid.T) scenario {
 	sc.CancelAt = rapid.IntRange(1, 3).Draw(t, "cancelAt")
 	if sc.Cancel == "between" && sc.Stack != "retry-delay" {
 		sc.Cancel = "in-attempt"
+	}
+	if sc.Cancel != "none" {
+		sc.CancelAgain = rapid.SampledFrom([]int{0, 0, 1, 2}).Draw(t, "cancelAgain")
 	}
 	return sc
 }
